@@ -134,21 +134,24 @@ NOT_APPLICABLE = {
 
 # clauses added in later build rounds (appended to the level text of the property)
 FRESH = (" Also decided: no node-building function reachable from the property's decoders carries a caching decorator (the spans stated by the property are those of THIS call; "
-         "the engine shifts and re-parents returned nodes in place) - a memoised helper whose results contain no node is accepted.")
+         "the engine shifts and re-parents returned nodes in place) - a memoised helper whose results contain no node is accepted; the functional spelling "
+         "ALIAS = lru_cache(...)(f) used by a reachable function is counted as the decorator.")
 TRUTH = " Also decided: Node defines no __len__ / value-dependent __bool__, so the parent tests in Node.original mean 'there is a parent' for every span (zero-width parents included)."
 ADDENDA = {
     "C18": " The include / exclude filter is compared with the statement under 'membership implies a non-empty container'; set-converted copies of the arguments are the arguments.",
     "C01": (" R5: for every constant pattern handed to the regex engine, no alternation nested in an unbounded repeat has two alternatives with intersecting languages (2^k parses "
             "between the same iteration boundaries); ambiguity of iteration boundaries is listed in the evidence but NOT judged (the matcher's repeat guards keep it linear on today's tree). "
-            "Memoised scan-path functions take hashable arguments only."),
+            "Memoised scan-path functions take hashable arguments only. R6: no node-building function reachable from a decoder is cached (decorator or ALIAS = lru_cache(...)(f)): "
+            "the drain loop's ranking argument needs hit.end <= len(data) for the hits of THIS call, and a cached node is shifted in place at every reuse."),
     "C03": TRUTH, "C04": TRUTH, "C05": TRUTH, "C06": TRUTH, "C08": TRUTH,
     "C09": " Set algebra on dict views (keys() - keys()) and set methods yield unordered collections; a keyed sort does not sanitise iteration order.",
     "C10": (" The percent-normalisation callback is interpreted (mdstatic/pureeval.py, nothing executed from the repository) for all 484 two-hex-digit escapes and compared with the "
             "documented table." + FRESH),
-    "C11": " Delegated to C10's rules (necessary for the canonical value and for a candidate being reported at all): percent normalisation table, is_domain / is_ip / is_url formulas, parse_ip canonical value." + FRESH,
+    "C11": " Delegated to C10's rules (necessary for the canonical value and for a candidate being reported at all): percent normalisation table, is_domain / is_ip / is_url formulas, parse_ip canonical value. Delegated to C09's effect rule for the functions its decoders reach: no write to state that outlives the call "
+            "(a module-level verdict cache makes detection depend on earlier scans)." + FRESH,
     "C12": (" Delegated to C10's rules: both IP parsers produce the compressed canonical form from packed bytes and label exactly when the text differs. The dotpath labels are "
             "compared as formulas (any spelling, either arm order) under len(kept) <= len(segments) / len(normpath(x)) <= len(x); the kept-segment stack changes only inside the segment loop." + FRESH),
-    "C13": FRESH, "C14": FRESH, "C15": FRESH, "C16": FRESH,
+    "C13": FRESH, "C14": " The provenance term of an .encode() call is the plain UTF-8 term only for a strict UTF-8 codec; any other codec or error handler (surrogatepass, replace, latin-1) is part of the term and fails the value rule." + FRESH, "C15": FRESH, "C16": FRESH,
     "C17": (" The boundary guard is compared with the statement under stated facts (start is a find() result inside the loop; a slice beginning at the end of the data is "
             "empty and not alphanumeric), the per-byte MixedCase test under 'no character is both upper and lower case'." + FRESH),
     "C20": " Delegated to C03's pairing rule: every child attached anywhere in the package points back at its owner (make_label / string_summary walk parent links).",
